@@ -78,8 +78,8 @@ theorem serialise_cmd (arch : Arch) (sg : Sg) (s q f : Option MemTensor) (r : Re
     simp only at h
     repeat' split at h
     all_goals first
+      | (cases h; rfl)
       | cases h
-      | (simp only [Except.ok.injEq] at h; subst h; rfl)
 
 /-- **raw_payload_is_tflite_payload**.  For every NPU subgraph the serialiser accepts: its command-stream tensor `c` holds the
     driver payload of the subgraph's register command stream; `tflite_writer` stores exactly these bytes in the buffer of the
@@ -111,15 +111,16 @@ theorem raw_cmd_data_parses (arch : Arch) (sg : Sg) (s q f : Option MemTensor) (
   rw [hc] at hc'
   cases hc'
   have hlen : sg.words.length < 2 ^ 24 := by
-    by_contra hge
-    rw [Props.C17.payload_rejects_big arch.acc sg.words (by omega)] at hp
-    cases hp
+    rcases Nat.lt_or_ge sg.words.length (2 ^ 24) with hlt | hge
+    · exact hlt
+    · rw [Props.C17.payload_rejects_big arch.acc sg.words hge] at hp
+      cases hp
   obtain ⟨bytes, out, hb, ho, hbl, hfrom⟩ := Props.C17.payload_bytes_roundtrip arch.acc sg.words hlen hw hacc
   obtain ⟨out', p, ho', hparse, h1, h2, h3, h4, h5⟩ := Props.C17.payload_parses arch.acc sg.words hlen
   rw [ho] at ho'
   cases ho'
-  rw [hb] at hp
-  cases hp
+  have hbp : bytes = payload := by rw [hb] at hp; exact Except.ok.inj hp
+  subst hbp
   refine ⟨bytes, p, (hall w sc fa ins outs z hz).1, ?_, h1, h2, h3, h4, h5⟩
   unfold Payload.parsePayload
   rw [if_neg (by rw [hbl]; omega), hfrom]
@@ -164,6 +165,19 @@ def sizesOf (z : Npz) : Spec.RawOutput.RawSizes :=
 /-- the entry the file holds for tensor `t` listed with region `r` -/
 def entry (r : Nat) (t : OpTensor) : Spec.RawOutput.RawIo := { region := r, offset := t.address, elemSize := t.elemSize, shape := t.shape }
 
+open VelaVerif.Spec.RawOutput in
+theorem sizeOf_one (Z : RawSizes) (n : Nat) (h1 : Z.scratchRegion = 1) (h2 : Z.scratchShape = [n]) : Z.sizeOf 1 = some (some n) := by
+  simp [RawSizes.sizeOf, h1, h2]
+
+open VelaVerif.Spec.RawOutput in
+theorem sizeOf_two (Z : RawSizes) (n : Nat) (h1 : Z.scratchRegion = 1) (h3 : Z.fastRegion = 2) (h4 : Z.fastShape = [n]) :
+    Z.sizeOf 2 = some (some n) := by
+  simp [RawSizes.sizeOf, h1, h3, h4]
+
+open VelaVerif.Spec.RawOutput in
+theorem sizeOf_zero (Z : RawSizes) (b : Bool) (h1 : Z.scratchRegion = 1) (h3 : Z.fastRegion = (if b then 2 else 1)) : Z.sizeOf 0 = none := by
+  cases b <;> simp [RawSizes.sizeOf, h1, h3]
+
 /-- **raw_io_offsets_inside_scratch**.  Setting of `raw_scratch_ge_extent`; `ins` / `outs` = the real inputs (operands 4…) and
     the results of the call operator.  Hypotheses: `hplaced` every listed tensor of an arena memory type has an address, given
     by a recorded allocation call whose type set contains its memory type, and `address + storage_size()` is below that call's
@@ -195,38 +209,46 @@ theorem raw_io_offsets_inside_scratch (arch : Arch) (calls : List AllocCall) (s 
   obtain ⟨_, _, _, _, _, _, _, hi, ho⟩ := writeRaw_ok arch c w _ _ ins outs z hz
   refine ⟨ioOf_lists arch ins _ hi, ioOf_lists arch outs _ ho, ?_⟩
   intro t ht r hr sz hsz
+  change (sizesOf z).sizeOf r = some sz at hsz
   have hb := hbytes t ht
   have hbytes' : (entry r t).bytes = (entry 0 t).bytes := rfl
-  simp only [Spec.RawOutput.RawSizes.sizeOf, sizesOf, hss, hfs, hsr, hfr] at hsz
+  have hZ1 : (sizesOf z).scratchRegion = 1 := hsr
+  have hZ2 : (sizesOf z).scratchShape = [tfliteBytes s'] := hss
+  have hZ3 : (sizesOf z).fastRegion = (if arch.spilling then 2 else 1) := hfr
+  have hZ4 : (sizesOf z).fastShape = [tfliteBytes q'] := hfs
   cases hmt : t.memType with
   | unknown => rw [hmt] at hr; cases hr
   | permanentNPU =>
     rw [hmt] at hr; simp only [getRegion, Option.some.injEq] at hr; subst hr
-    cases hsp : arch.spilling <;> simp [hsp] at hsz
+    rw [sizeOf_zero _ _ hZ1 hZ3] at hsz; cases hsz
   | permanentCPU =>
     rw [hmt] at hr; simp only [getRegion, Option.some.injEq] at hr; subst hr
-    cases hsp : arch.spilling <;> simp [hsp] at hsz
+    rw [sizeOf_zero _ _ hZ1 hZ3] at hsz; cases hsz
   | scratch =>
     obtain ⟨a, call, ha, hcall, hrec, hty, hle⟩ := hplaced t ht (Or.inl hmt)
     rw [hmt] at hr hty; simp only [getRegion, Option.some.injEq] at hr; subst hr
-    simp only [if_true, Option.some.injEq] at hsz
-    subst hsz
+    rw [sizeOf_one _ _ hZ1 hZ2] at hsz
+    have hsz' : sz = some (tfliteBytes s') := (Option.some.inj hsz).symm
+    subst hsz'
     refine ⟨_, a, rfl, ha, ?_⟩
     have := hS call hcall hrec hty a (storage t) hle
     rw [hbytes']; omega
   | scratchFast =>
     obtain ⟨a, call, ha, hcall, hrec, hty, hle⟩ := hplaced t ht (Or.inr hmt)
-    rw [hmt] at hr hty; simp only [getRegion, Option.some.injEq] at hr; subst hr
+    rw [hmt] at hr hty; simp only [getRegion, Option.some.injEq] at hr
     cases hsp : arch.spilling with
     | false =>
-      simp only [hsp, Bool.false_eq_true, if_false, if_true, Option.some.injEq] at hsz
-      subst hsz
+      rw [hsp] at hr; simp only [Bool.false_eq_true, if_false] at hr; subst hr
+      rw [sizeOf_one _ _ hZ1 hZ2] at hsz
+      have hsz' : sz = some (tfliteBytes s') := (Option.some.inj hsz).symm
+      subst hsz'
       refine ⟨_, a, rfl, ha, ?_⟩
       have := hS call hcall hrec (hjoint hsp call hcall hty) a (storage t) hle
       rw [hbytes']; omega
     | true =>
-      simp only [hsp, if_true, Nat.succ_ne_self, if_false, Option.some.injEq] at hsz
-      have hsz' : sz = some (tfliteBytes q') := by simpa using hsz.symm
+      rw [hsp] at hr hZ3; simp only [if_true] at hr hZ3; subst hr
+      rw [sizeOf_two _ _ hZ1 hZ3 hZ4] at hsz
+      have hsz' : sz = some (tfliteBytes q') := (Option.some.inj hsz).symm
       subst hsz'
       refine ⟨_, a, rfl, ha, ?_⟩
       have := hQ call hcall hrec hty a (storage t) hle
@@ -269,16 +291,21 @@ def demoQ : MemTensor := { mkMem .sram .scratchFast 0 false with purpose := .scr
 example : demoArch.spilling = true := by decide
 example :
     finalSizes (books demoCalls).perType (some demoS) (some demoQ) =
-      (some { demoS with size := 65536 }, some { demoQ with size := 4096 }) := by decide
+      (some { demoS with size := 65536 }, some { demoQ with size := 4096 }) := by rfl
 example :
     writeRaw demoArch [demoCmd, demoW, ofMem { demoS with size := 65536 }, ofMem { demoQ with size := 4096 }, demoIn] [demoOut] =
       .ok { cmdData := some [1, 2, 3, 4], weightData := some [9, 9], weightRegion := 0, scratchShape := [65536], scratchRegion := 1,
             scratchFastShape := [4096], scratchFastRegion := 2,
-            input := ⟨[[1, 8, 8, 16]], [1], [1], [some 1024]⟩, output := ⟨[[1, 4, 4, 32]], [2], [2], [some 0]⟩ } := by decide
+            input := ⟨[[1, 8, 8, 16]], [1], [1], [some 1024]⟩, output := ⟨[[1, 4, 4, 32]], [2], [2], [some 0]⟩ } := by rfl
 /-- the hypotheses of `raw_io_offsets_inside_scratch` hold for the demo (storage = the bytes of the shape) -/
 example : ∀ t ∈ [demoIn] ++ [demoOut], t.memType = .scratch ∨ t.memType = .scratchFast →
     ∃ a call, t.address = some a ∧ call ∈ demoCalls ∧ call.recorded = true ∧ t.memType ∈ call.types ∧
-      a + (entry 0 t).bytes ≤ call.total := by decide
+      a + (entry 0 t).bytes ≤ call.total := by
+  intro t ht _
+  simp only [List.cons_append, List.nil_append, List.mem_cons, List.not_mem_nil, or_false] at ht
+  rcases ht with rfl | rfl
+  · exact ⟨1024, ⟨.dram, [.scratch], 65536, true⟩, rfl, by decide, rfl, by decide, by decide⟩
+  · exact ⟨0, ⟨.sram, [.scratchFast], 4096, true⟩, rfl, by decide, rfl, by decide, by decide⟩
 /-- the Spec accepts the demo file, and rejects it when the fast size is published without its last KiB or when the offsets of
     the two tensors are exchanged -/
 example :
@@ -291,6 +318,6 @@ example :
     Spec.RawOutput.ok ⟨1, [65536], 2, [4096]⟩ [{ inn with offset := none }] [out] = false := by decide
 /-- inputs of different rank: `np.savez` raises, no file is written -/
 example : writeRaw demoArch [demoCmd, demoW, ofMem demoS, ofMem demoQ, demoIn, { demoIn with shape := [1, 8] }] [demoOut] = .error .ragged := by
-  decide
+  rfl
 
 end VelaVerif.Props.C12Raw
